@@ -240,15 +240,18 @@ def spec (i : Input) (o : Obs) : Bool :=
   specConfA i o && specConfAdv i o && specIssued i o && specKey i o && specRecover i o &&
   specWrongKey i o && specCorrupt i o && specOrder i o
 
-/-! ### the two input classes on which the pinned code is known not to meet the specification -/
+/-! ### the input classes of the two defects repaired by 130fd4d2 / 9b391349
 
-/-- `_response` returns early ("only the extra parts are to be signed") before the advice is encrypted. -/
+  No theorem depends on them any more; the driver reports them so that the harness can name the root
+  cause should the old behaviour return (it then surfaces as a VIOLATION). -/
+
+/-- `_response` used to return early ("only the extra parts are to be signed") before the advice was encrypted. -/
 def earlyReturnClass (c : Call) : Bool :=
   let o := c.opts
   effAdv c && o.signAssertion && !o.encryptAssertion && !o.signResponse
 
 /-- An encryption step runs on a message that is still an object (not self-contained, nothing signed just
-    before): `pre_encrypt_assertion` is applied twice and the assertion is lost; the call raises. -/
+    before): `pre_encrypt_assertion` used to be applied twice, the assertion was lost and the call raised. -/
 def objectFormClass (c : Call) : Bool :=
   let o := c.opts
   let sc := o.selfContained || c.pefim
